@@ -4,25 +4,25 @@ Local Open Scope Z_scope.
 
 (* ---- writing ---- *)
 Theorem ser_int_exact k w z val vals b' :
-  push (VInt w z) (BdPrim k val vals) = Ok b' ->
-  in_int k z = true /\ exists val', b' = BdPrim k val' (vals ++ [z]).
+  push (VInt w z) (BdPrim (PInt k) val vals) = Ok b' ->
+  in_int k z = true /\ exists val', b' = BdPrim (PInt k) val' (vals ++ [z]).
 Proof.
   cbn [push prim_value]. destruct (in_int k z) eqn:E; cbn [bind]; [|discriminate].
   destruct (set_validity val (length vals) true) as [val'| |p]; cbn [bind]; try discriminate.
   intros H; inversion H; subst. split; [reflexivity|]. eexists; reflexivity.
 Qed.
 
-Theorem ser_int_out_of_range k w z val vals : in_int k z = false -> push (VInt w z) (BdPrim k val vals) = Err.
+Theorem ser_int_out_of_range k w z val vals : in_int k z = false -> push (VInt w z) (BdPrim (PInt k) val vals) = Err.
 Proof. intros E. cbn [push prim_value]. rewrite E. reflexivity. Qed.
 
 Theorem ser_int_total k w z val vals : in_int k z = true ->
-  exists val', push (VInt w z) (BdPrim k val vals) = Ok (BdPrim k val' (vals ++ [z])).
+  exists val', push (VInt w z) (BdPrim (PInt k) val vals) = Ok (BdPrim (PInt k) val' (vals ++ [z])).
 Proof.
   intros E. cbn [push prim_value]. rewrite E. cbn [bind]. unfold set_validity. destruct val as [v|]; cbn [bind]; eexists; reflexivity.
 Qed.
 
 Theorem ser_char_exact k c val vals b' :
-  push (VChar c) (BdPrim k val vals) = Ok b' -> in_int k c = true /\ exists val', b' = BdPrim k val' (vals ++ [c]).
+  push (VChar c) (BdPrim (PInt k) val vals) = Ok b' -> in_int k c = true /\ exists val', b' = BdPrim (PInt k) val' (vals ++ [c]).
 Proof.
   cbn [push prim_value]. destruct (in_int k c) eqn:E; cbn [bind]; [|discriminate].
   destruct (set_validity val (length vals) true) as [val'| |p]; cbn [bind]; try discriminate.
@@ -44,7 +44,7 @@ Proof. reflexivity. Qed.
 (* a wrong kind of value is refused, never coerced *)
 Theorem ser_wrong_kind_prim k val vals v :
   match v with VInt _ _ | VBool _ | VChar _ | VNone | VUnit | VUnitStruct | VSome _ | VNewtypeStruct _ => False | _ => True end ->
-  push v (BdPrim k val vals) = Err.
+  push v (BdPrim (PInt k) val vals) = Err.
 Proof. destruct v; cbn; intros H; try contradiction; reflexivity. Qed.
 
 (* end of a record: an unseen required field is an error, an unseen nullable field becomes null *)
